@@ -91,7 +91,6 @@ def snap(x):
 
 class Sym:
     __slots__ = ("tr", "id")
-    __array_priority__ = 1000
 
     def __init__(self, tr, i):
         self.tr = tr
